@@ -241,9 +241,17 @@ func runC13(c *Ctx) {
 		nsub = 24
 	}
 	kinds := []string{"delete", "truncate", "extend", "bitflip", "replace"}
+	// In some scenarios lfs/bad survives from one damage configuration to the
+	// next (an object corrupted, repaired away, restored and corrupted again).
+	keepBad := t.Bool(1, 2, "keep-bad-dir")
 	for si := 0; si < nsub && c.Res.Class == ""; si++ {
-		os.RemoveAll(filepath.Join(g, "lfs"))
-		copyTree(pristine, filepath.Join(g, "lfs"))
+		if keepBad {
+			os.RemoveAll(filepath.Join(g, "lfs", "objects"))
+			copyTree(filepath.Join(pristine, "objects"), filepath.Join(g, "lfs", "objects"))
+		} else {
+			os.RemoveAll(filepath.Join(g, "lfs"))
+			copyTree(pristine, filepath.Join(g, "lfs"))
+		}
 		damaged := map[string]string{}
 		for i, o := range oids {
 			hit := false
